@@ -44,7 +44,7 @@ theorem lineLoop_fuel_irrelevant (f1 f2 : Nat) (s : LS) (acc : List Token) (h1 :
         by_cases hk : t.kind = .eol
         · rw [if_pos hk, if_pos hk]
         · rw [if_neg hk, if_neg hk]
-          have := (hs.2.2.2.2 hk).2
+          have := (hs.2.2.2.2.1 hk).2
           exact ih m s' (acc ++ [t]) (by omega) (by omega)
       | .err e, _ => rfl
 
